@@ -275,10 +275,38 @@ def run(ck):
                 return True
         return False
     nw = 0
+
+    def stale_operand(fn_, w, name):
+        """a local computed from `name` is handed to the writer although `name` was advanced since the local was computed"""
+        pat = re.compile(r"\b%s\b" % re.escape(name))
+        for a_ in w.get("args", []):
+            dl = [d_ for d_ in fn_.events("decl") if d_.get("var") == a_.get("v") and a_.get("v")]
+            if not dl or pat.search(a_.get("t") or ""):
+                continue
+            d_ = dl[0]
+            if not pat.search(" ".join(d_.get("refs") or []) + " " + ((d_.get("init") or {}).get("t") or "")):
+                continue
+            for up in [x for x in fn_.events("assign") if (x.get("lhs") or {}).get("v") == name]:
+                hit = []
+
+                def st_(st, ev, d_=d_):
+                    if ev is d_:
+                        return None         # recomputed
+                    if ev is w:
+                        hit.append(ev)
+                        return None
+                    return st
+                cfg.run_automaton(fn_, 0, st_, start=up.block, start_idx=up.idx + 1)
+                if hit:
+                    return "'%s' is computed from %s at line %s, %s is advanced at line %s, and the old '%s' is used again at line %s" % (
+                        d_["var"], name, d_.get("l"), name, up.get("l"), d_["var"], w.get("l"))
+        return None
     for w in f.calls(lambda e: e.get("callee") in WRITE_OWNERS):
         nw += 1
         args = " ".join(a.get("t") or "" for a in w.get("args", []))
-        ck.ob("C06-R3", "asyncWriteImpl/%s-starts-at-totalWritten" % w["callee"].replace(T, ""), based_on(f, w, TW), w.loc, f, "arguments: %s" % args)
+        stale = stale_operand(f, w, TW)
+        ck.ob("C06-R3", "asyncWriteImpl/%s-starts-at-totalWritten" % w["callee"].replace(T, ""), based_on(f, w, TW) and not stale, w.loc, f,
+              "arguments: %s" % args if not stale else "the resume position is stale: %s — after a short write the same bytes are sent again" % stale)
     for lf in prog.lambdas_in(f):
         lid = lf.id.split("#in:")[0]
         for w in lf.calls(lambda e: e.get("callee") in WRITE_OWNERS):
@@ -293,3 +321,9 @@ def run(ck):
             ok = ok or based_on(lf, w, TW)
             ck.ob("C06-R3", "asyncWriteImpl/%s-starts-at-totalWritten" % w["callee"].replace(T, ""), ok, w.loc, lf, "arguments: %s (inside a local lambda)" % args)
     ck.require(nw >= 2, "writer calls of the drain routine: %d found" % nw)
+
+    # ---------------- facts shared with C13 ----------------
+    ck.borrow("C13", ["C13-R1", "C13-R2"], "C06-R5",
+              "writes queued from other threads travel through a PollableQueue: push links the entry with one atomic exchange and then "
+              "signals the eventfd unconditionally; pop drains the eventfd before it looks at the queue -- otherwise a queued write can "
+              "stay behind with its wake-up consumed and never reach the peer", min_instances=3)
